@@ -78,7 +78,12 @@ def _mol_from_spec(s, seed):
         scale = s["scale"] if "scale" in s else s["R"] / (M.RCOV[za] + M.RCOV[zb])
         m = M.pair_molecule(za, zb, scale)
         m["name"] = f"{M.SYMBOL[za]}-{M.SYMBOL[zb]}"
-    m = M.apply(m, M.generic_rot(seed))
+    if s.get("orient"):
+        # the typed-in layouts: first bond exactly on a Cartesian axis (+x is the builder's own layout)
+        ax = {"x": np.eye(3), "y": M.rot_axis([0, 0, 1], np.pi / 2), "z": M.rot_axis([0, 1, 0], -np.pi / 2), "-z": M.rot_axis([0, 1, 0], np.pi / 2)}[s["orient"]]
+        m = M.apply(m, np.round(ax))
+    else:
+        m = M.apply(m, M.generic_rot(seed))
     if "charge" in s:
         m["charge"] = s["charge"]
     if "mult" in s:
@@ -133,7 +138,8 @@ def execute(req):
         es = Electronic_Structure(params)
         molecule.verbose = False
         if req.get("active_state") is not None:
-            molecule.active_state = req["active_state"]
+            a = req["active_state"]
+            molecule.active_state = torch.as_tensor(a, dtype=torch.int64) if isinstance(a, (list, tuple)) else a
         out["stage"] = "call"
         h = SR.CallHorizon(limit=20 * 1002, limits={"SP2": 3000})
         old_cap = SL.MAX_ITER
@@ -141,7 +147,10 @@ def execute(req):
         try:
             with contextlib.redirect_stdout(io.StringIO()):
                 with h:
-                    es(molecule)
+                    if req.get("energy_only"):
+                        es(molecule, do_force=False)
+                    else:
+                        es(molecule)
         finally:
             SL.MAX_ITER = old_cap
         out["stage"] = "done"
@@ -309,6 +318,13 @@ def negative_lattice(tier, seed):
             for fm in ("autodiff", "analytical"):
                 for b in (["H2O"], ["H2O", "NH3"]):
                     reqs.append(_req("active_state", "raise", meth, [{"name": x} for x in b], seed, fault=f"active_state={st},{fm}", active_state=st, force_mode=fm))
+        # the request can also arrive as a per-molecule tensor that mixes ground and excited molecules, and through
+        # the energy-only path; every way of asking must be refused
+        for b in (["H2O", "H2O"], ["H2O", "NH3"]):
+            for a in ([0, 1], [1, 0], [2, 1]):
+                reqs.append(_req("active_state", "raise", meth, [{"name": x} for x in b], seed, fault=f"active_state={a},tensor", active_state=a))
+        for a in (1, [0, 1]):
+            reqs.append(_req("active_state", "raise", meth, [{"name": "H2O"}, {"name": "H2O"}], seed, fault=f"active_state={a},energy_only", active_state=a, energy_only=True))
         reqs.append(_req("active_state", "finite", meth, [{"name": "H2O"}], seed, fault="none(base)", active_state=0))
     # --- UHF + PM6 (d-orbital method: only this guard is exercised)
     reqs.append(_req("uhf_unsupported", "raise", "PM6", [{"name": "H2O"}], seed, uhf=True, fault="UHF+PM6", option="PM6"))
@@ -362,6 +378,9 @@ def positive_lattice(tier, seed):
             if z == 1:
                 continue
             n = HYDRIDE[z]
+            # axis-aligned layouts (exact zeros in the pair vector are where 0/0 branches of the frame code live)
+            for o in ("x", "y", "z", "-z"):
+                reqs.append(_req("axis", "finite", meth, [{"name": n, "orient": o}], seed, fault="", za=z, orient=o))
             for c in (-2, -1, 1, 2):
                 odd = (sum(TORE[s] for s in M.MOLS[n]["species"]) - c) % 2 == 1
                 kind = occupation(M.MOLS[n]["species"], c, 2 if odd else 1, odd)[0]
@@ -370,6 +389,14 @@ def positive_lattice(tier, seed):
                                      fault=f"{kind}:charge={c}", za=z, charge=c, occ=kind))  # fmt: skip
                 else:
                     reqs.append(_req("ion", "finite", meth, [{"name": n, "charge": c, "mult": 2 if odd else 1}], seed, uhf=odd, fault="", za=z, charge=c))
+    # the d-orbital Hamiltonian has its own frame code: diatomics and hydrides on every axis
+    for za, zb in ((17, 1), (16, 1), (17, 17), (16, 8), (17, 6), (8, 1), (6, 1)):
+        for o in ("x", "y", "z", "-z", None):
+            for sc in (1.0, 1.3):
+                spec = {"pair": [za, zb], "scale": sc}
+                if o:
+                    spec["orient"] = o
+                reqs.append(_req("axis_pm6", "finite", "PM6", [spec], seed, fault="", za=za, zb=zb, orient=o or "generic", R=round(sc * (M.RCOV[za] + M.RCOV[zb]), 3)))
     return reqs
 
 
@@ -379,7 +406,7 @@ def positive_lattice(tier, seed):
 def _key(r):
     ms = "+".join(
         (s.get("name") or f"{s['pair'][0]}-{s['pair'][1]}@{s.get('R', s.get('scale'))}") + (f"[q{s['charge']}]" if "charge" in s else "")
-        + (f"[m{s['mult']}]" if "mult" in s else "") for s in r["mols"]
+        + (f"[m{s['mult']}]" if "mult" in s else "") + (f"[on {s['orient']}]" if s.get("orient") else "") for s in r["mols"]
     )  # fmt: skip
     md = f"|md:{r['md']['engine']}" if r.get("md") else ""
     return f"{r['family']}|{r['method']}|{ms}|{'uhf' if r.get('uhf') else 'rhf'}|{r['fault']}{md}"
